@@ -216,3 +216,238 @@ impl GLib {
         }
     }
 }
+
+// ---------------------------------------------------------------------------------------------------
+// A libdbus client connection (for talking to a private dbus-daemon without any zbus code involved).
+
+type ErrBuf = [u64; 8]; // DBusError is 32 bytes on this ABI; twice that is reserved
+type IterBuf = [u64; 16]; // DBusMessageIter is 72 bytes on this ABI
+
+pub struct BusFns {
+    _lib: Lib,
+    error_init: unsafe extern "C" fn(*mut ErrBuf),
+    error_is_set: unsafe extern "C" fn(*const ErrBuf) -> u32,
+    error_free: unsafe extern "C" fn(*mut ErrBuf),
+    open_private: unsafe extern "C" fn(*const c_char, *mut ErrBuf) -> P,
+    set_exit_on_disconnect: unsafe extern "C" fn(P, u32),
+    bus_register: unsafe extern "C" fn(P, *mut ErrBuf) -> u32,
+    bus_get_unique_name: unsafe extern "C" fn(P) -> *const c_char,
+    bus_add_match: unsafe extern "C" fn(P, *const c_char, *mut ErrBuf),
+    bus_remove_match: unsafe extern "C" fn(P, *const c_char, *mut ErrBuf),
+    bus_request_name: unsafe extern "C" fn(P, *const c_char, u32, *mut ErrBuf) -> c_int,
+    message_new_signal: unsafe extern "C" fn(*const c_char, *const c_char, *const c_char) -> P,
+    message_new_method_call: unsafe extern "C" fn(*const c_char, *const c_char, *const c_char, *const c_char) -> P,
+    message_set_destination: unsafe extern "C" fn(P, *const c_char) -> u32,
+    message_set_no_reply: unsafe extern "C" fn(P, u32),
+    iter_init_append: unsafe extern "C" fn(P, *mut IterBuf),
+    iter_append_basic: unsafe extern "C" fn(*mut IterBuf, c_int, *const c_void) -> u32,
+    connection_send: unsafe extern "C" fn(P, P, *mut u32) -> u32,
+    connection_flush: unsafe extern "C" fn(P),
+    connection_read_write: unsafe extern "C" fn(P, c_int) -> u32,
+    connection_pop_message: unsafe extern "C" fn(P) -> P,
+    message_get_member: unsafe extern "C" fn(P) -> *const c_char,
+    message_get_sender: unsafe extern "C" fn(P) -> *const c_char,
+    message_get_type: unsafe extern "C" fn(P) -> c_int,
+    message_unref: unsafe extern "C" fn(P),
+    connection_close: unsafe extern "C" fn(P),
+    connection_unref: unsafe extern "C" fn(P),
+}
+
+pub enum Arg {
+    Str(String),
+    Path(String),
+    U32(u32),
+}
+
+pub struct BusConn<'a> {
+    f: &'a BusFns,
+    c: P,
+    pub unique: String,
+}
+
+impl BusFns {
+    pub fn open() -> Option<BusFns> {
+        let lib = Lib::open(&["libdbus-1.so.3", "libdbus-1.so"])?;
+        unsafe {
+            Some(BusFns {
+                error_init: lib.sym("dbus_error_init"),
+                error_is_set: lib.sym("dbus_error_is_set"),
+                error_free: lib.sym("dbus_error_free"),
+                open_private: lib.sym("dbus_connection_open_private"),
+                set_exit_on_disconnect: lib.sym("dbus_connection_set_exit_on_disconnect"),
+                bus_register: lib.sym("dbus_bus_register"),
+                bus_get_unique_name: lib.sym("dbus_bus_get_unique_name"),
+                bus_add_match: lib.sym("dbus_bus_add_match"),
+                bus_remove_match: lib.sym("dbus_bus_remove_match"),
+                bus_request_name: lib.sym("dbus_bus_request_name"),
+                message_new_signal: lib.sym("dbus_message_new_signal"),
+                message_new_method_call: lib.sym("dbus_message_new_method_call"),
+                message_set_destination: lib.sym("dbus_message_set_destination"),
+                message_set_no_reply: lib.sym("dbus_message_set_no_reply"),
+                iter_init_append: lib.sym("dbus_message_iter_init_append"),
+                iter_append_basic: lib.sym("dbus_message_iter_append_basic"),
+                connection_send: lib.sym("dbus_connection_send"),
+                connection_flush: lib.sym("dbus_connection_flush"),
+                connection_read_write: lib.sym("dbus_connection_read_write"),
+                connection_pop_message: lib.sym("dbus_connection_pop_message"),
+                message_get_member: lib.sym("dbus_message_get_member"),
+                message_get_sender: lib.sym("dbus_message_get_sender"),
+                message_get_type: lib.sym("dbus_message_get_type"),
+                message_unref: lib.sym("dbus_message_unref"),
+                connection_close: lib.sym("dbus_connection_close"),
+                connection_unref: lib.sym("dbus_connection_unref"),
+                _lib: lib,
+            })
+        }
+    }
+
+    pub fn connect(&self, address: &str) -> Result<BusConn<'_>, String> {
+        unsafe {
+            let mut e: ErrBuf = [0; 8];
+            (self.error_init)(&mut e);
+            let a = CString::new(address).unwrap();
+            let c = (self.open_private)(a.as_ptr(), &mut e);
+            if c.is_null() {
+                (self.error_free)(&mut e);
+                return Err("dbus_connection_open_private failed".into());
+            }
+            (self.set_exit_on_disconnect)(c, 0);
+            if (self.bus_register)(c, &mut e) == 0 {
+                (self.error_free)(&mut e);
+                return Err("dbus_bus_register failed".into());
+            }
+            let unique = std::ffi::CStr::from_ptr((self.bus_get_unique_name)(c)).to_string_lossy().to_string();
+            Ok(BusConn { f: self, c, unique })
+        }
+    }
+}
+
+impl<'a> BusConn<'a> {
+    /// AddMatch, waiting for the daemon's verdict: Ok(()) if it accepted the rule.
+    pub fn add_match(&self, rule: &str) -> Result<(), ()> {
+        let Ok(r) = CString::new(rule) else { return Err(()) };
+        unsafe {
+            let mut e: ErrBuf = [0; 8];
+            (self.f.error_init)(&mut e);
+            (self.f.bus_add_match)(self.c, r.as_ptr(), &mut e);
+            if (self.f.error_is_set)(&e) != 0 {
+                (self.f.error_free)(&mut e);
+                return Err(());
+            }
+            Ok(())
+        }
+    }
+
+    pub fn remove_match(&self, rule: &str) {
+        let Ok(r) = CString::new(rule) else { return };
+        unsafe {
+            let mut e: ErrBuf = [0; 8];
+            (self.f.error_init)(&mut e);
+            (self.f.bus_remove_match)(self.c, r.as_ptr(), &mut e);
+            if (self.f.error_is_set)(&e) != 0 {
+                (self.f.error_free)(&mut e);
+            }
+        }
+    }
+
+    pub fn request_name(&self, name: &str) -> bool {
+        let n = CString::new(name).unwrap();
+        unsafe {
+            let mut e: ErrBuf = [0; 8];
+            (self.f.error_init)(&mut e);
+            let r = (self.f.bus_request_name)(self.c, n.as_ptr(), 4, &mut e);
+            if (self.f.error_is_set)(&e) != 0 {
+                (self.f.error_free)(&mut e);
+                return false;
+            }
+            r == 1
+        }
+    }
+
+    /// Send a message (signal, or a no-reply method call when `call_destination` is given) and flush.
+    pub fn send(&self, mtype: u8, path: &str, iface: &str, member: &str, destination: Option<&str>, args: &[Arg]) -> bool {
+        unsafe {
+            let (p, i, m) = (CString::new(path).unwrap(), CString::new(iface).unwrap(), CString::new(member).unwrap());
+            let msg = if mtype == 4 {
+                (self.f.message_new_signal)(p.as_ptr(), i.as_ptr(), m.as_ptr())
+            } else {
+                let d = CString::new(destination.unwrap_or("org.freedesktop.DBus")).unwrap();
+                let msg = (self.f.message_new_method_call)(d.as_ptr(), p.as_ptr(), i.as_ptr(), m.as_ptr());
+                if !msg.is_null() {
+                    (self.f.message_set_no_reply)(msg, 1);
+                }
+                msg
+            };
+            if msg.is_null() {
+                return false;
+            }
+            if mtype == 4 {
+                if let Some(d) = destination {
+                    let d = CString::new(d).unwrap();
+                    (self.f.message_set_destination)(msg, d.as_ptr());
+                }
+            }
+            let mut it: IterBuf = [0; 16];
+            (self.f.iter_init_append)(msg, &mut it);
+            for a in args {
+                let ok = match a {
+                    Arg::Str(s) | Arg::Path(s) => {
+                        let c = CString::new(s.as_str()).unwrap();
+                        let ptr: *const c_char = c.as_ptr();
+                        let code = if matches!(a, Arg::Str(_)) { b's' } else { b'o' } as c_int;
+                        (self.f.iter_append_basic)(&mut it, code, &ptr as *const *const c_char as *const c_void)
+                    }
+                    Arg::U32(v) => (self.f.iter_append_basic)(&mut it, b'u' as c_int, v as *const u32 as *const c_void),
+                };
+                if ok == 0 {
+                    (self.f.message_unref)(msg);
+                    return false;
+                }
+            }
+            let ok = (self.f.connection_send)(self.c, msg, std::ptr::null_mut());
+            (self.f.connection_flush)(self.c);
+            (self.f.message_unref)(msg);
+            ok != 0
+        }
+    }
+
+    /// Read until a message with member `marker` arrives (at most `limit_ms`); returns the (type, member, sender) of everything before it.
+    pub fn read_until(&self, marker: &str, limit_ms: u64) -> Option<Vec<(i32, String, String)>> {
+        let start = std::time::Instant::now();
+        let mut seen = Vec::new();
+        unsafe {
+            loop {
+                loop {
+                    let m = (self.f.connection_pop_message)(self.c);
+                    if m.is_null() {
+                        break;
+                    }
+                    let s = |p: *const c_char| if p.is_null() { String::new() } else { std::ffi::CStr::from_ptr(p).to_string_lossy().to_string() };
+                    let member = s((self.f.message_get_member)(m));
+                    let sender = s((self.f.message_get_sender)(m));
+                    let t = (self.f.message_get_type)(m);
+                    (self.f.message_unref)(m);
+                    if member == marker {
+                        return Some(seen);
+                    }
+                    seen.push((t, member, sender));
+                }
+                if start.elapsed().as_millis() as u64 > limit_ms {
+                    return None;
+                }
+                if (self.f.connection_read_write)(self.c, 50) == 0 {
+                    return None;
+                }
+            }
+        }
+    }
+}
+
+impl<'a> Drop for BusConn<'a> {
+    fn drop(&mut self) {
+        unsafe {
+            (self.f.connection_close)(self.c);
+            (self.f.connection_unref)(self.c);
+        }
+    }
+}
